@@ -123,7 +123,7 @@ var c18EdEdge = gen.Edge(ref.EdL)
 func c18EdProgram(r *mon.R, idx int) {
 	rng := gen.New(r.Seed, "C18ed", idx)
 	L := &c18Lock{r: r, part: "ed25519", idx: idx, ms: c18EdMachines(), q: ref.EdL, edge: c18EdEdge, nS: 4, nP: 6,
-		sorts: []c18Sort{{name: "point", ref: c18EdRef{}, ext: c18EdExternal}}}
+		sorts: []c18Sort{{name: "point", ref: c18EdRef{}, ext: c18EdExternal, canEmbed: true}}}
 	L.run(rng, 28+rng.IntN(13))
 	if idx == 0 {
 		r.SampleClass("ed25519-program", map[string]any{"part": "ed25519", "program": idx, "machines": []string{"ed25519-ct", "ed25519-allowvartime", "edvartime-proj", "edvartime-ext", "big.Int model"}, "last_steps": L.hist})
